@@ -138,12 +138,17 @@ TEXT = {
                 "the log (C02_chain_sound); State.Verify accepts a state only if its primary rule file is signed by a threshold of distinct "
                 "keys of the role its own root names (C02_verify_primary_signed) and every delegated rule file it contains was reached through "
                 "a rule of that name whose verifier accepted its envelope - no dangling file, none taken on trust (C02_verify_delegations, "
-                "induction over the delegation queue). The whole-verification statement C02_sound_statement is evaluated as a declarative "
+                "induction over the delegation queue). Whole loop (relLoop_chain_gen, C02_relative_chain; induction over the verification loop with "
+                "the state invariant of C01, every history / range / reference / variant): if verification accepts, every policy entry "
+                "inside the range - also one the recovery branch set aside and re-queued - loads, was accepted by VerifyNewState of EXACTLY the "
+                "policy state in force before it (so root signed by the predecessor's root threshold, no version decrease, no file lost) and, "
+                "with F4 repaired, passed State.Verify (primary file signed per its own root, delegations reached and accepted). "
+                "The whole-verification statement C02_sound_statement is evaluated as a declarative "
                 "predicate (signer counting, reachability of delegated files, dangling files, version monotonicity) on every "
                 "verification the REAL verifier accepts, in full / latest-only / from-entry mode; the model must reproduce every verdict.",
         "note": TB + "Mergeability mode is covered under C19. F4 (in-range policy entries were not self-verified) was found, reproduced from "
-                "corpus/C02 and FIXED in /repo (8a14108); the witness stays as a regression case. State.Verify's delegation walk is modelled and correspondence-checked, its soundness "
-                "w.r.t. the declarative selfOK predicate is not yet a theorem.",
+                "corpus/C02 and FIXED in /repo (8a14108); the witness stays as a regression case. Not yet a theorem: that the state LoadState returns for the FIRST entry of a range "
+                "is chained from the first policy entry of the log (C02_chain_sound covers the chain, not yet its composition with the loop).",
         "technique": "Lean 4 proof (C05 soundness + counting, induction over the chain) + differential correspondence on forged chains",
     },
     "C11": {
